@@ -10,7 +10,7 @@
    and reopening, and the verifier process stepping, dying and restarting at any point (EVBegin /
    EVStep / EVCrash), with any result of its setsum checks. *)
 From Coq Require Import NArith List Bool.
-From Blue Require Import Refs.Model Refs.Spec Refs.ProofsCount Refs.ProofsTop.
+From Blue Require Import Refs.Model Refs.ModelLock Refs.Spec Refs.ProofsCount Refs.ProofsTop Refs.ProofsLock.
 Import ListNotations.
 Open Scope N_scope.
 
@@ -82,6 +82,29 @@ Proof. exact verifier_preserves. Qed.
 Theorem C08_verifier_unlinks_verified_incarnation_outside_known : forall evs,
   ~ known_by_name sys0 evs -> pending_not_readded (run sys0 evs).
 Proof. exact pending_outside. Qed.
+
+(* 6. release_sst at a finer grain (Refs/ModelLock.v): ReferenceCounter::dec_and's decision ("the
+      count of x was 1: entry removed") and its callback (rename sst/x -> trash/x) are two steps of
+      the scheduler, and any thread may run in between.  What makes theorems 1-5 apply is the lock
+      on the table of counts, held across the callback: a thread whose next instruction takes that
+      lock (inc_and of a compaction pinning an output, explicit_ref, another dec_and) waits.  Then
+      every fine-grained run ends in a state that a run of the atomic model reaches ... *)
+Theorem C08_release_callback_under_table_lock_refines_atomic_release : forall evs,
+  exists evs', fst (frun true lsys0 evs) = run sys0 evs'.
+Proof. exact fine_refines_atomic. Qed.
+
+(* ... in particular nothing needed is removed, whatever runs while a thread is inside the callback *)
+Theorem C08_needed_not_removed_with_release_callback : forall evs x,
+  needed (fst (frun true lsys0 evs)) x -> In x (f_sst (s_fs (fst (frun true lsys0 evs)))).
+Proof. exact fine_needed_present. Qed.
+
+(* 6b. The dependence is real: with the callback run after the table lock has been given up
+      (dec_and as `let last = self.dec(t); if last { f(); }`) a compaction that re-creates x pins
+      and links it between a reader's last decrement of x and the reader's rename, and the
+      committed manifest lists an sst that is in the trash. *)
+Theorem C08_needed_not_removed_refuted_without_lock_across_callback : exists evs x,
+  needed (fst (frun false lsys0 evs)) x /\ ~ In x (f_sst (s_fs (fst (frun false lsys0 evs)))).
+Proof. exists ex_unlocked, 10. exact unlocked_loses_listed_sst. Qed.
 
 (* ---- the hypotheses are satisfiable by non-trivial histories *)
 Definition open_fresh : list event := EOpen [] [] 0 :: repeat (EStep T_MAIN) 6.
